@@ -739,6 +739,30 @@ fn key_constructors(rep: &mut Report, case: u64, world: &World, rng: &mut Rng) {
             "Descriptor::new_pkh" | "Descriptor::new_pk" | "Descriptor::new_sh_sortedmulti" => *form != "x-only",
             _ => true,
         };
+        // translate_pk as a constructor of key-only descriptors (and of the internal key of a tree)
+        for (templ, ok) in [
+            ("tr(K)", *form != "uncompressed"),
+            ("tr(K,pk(L))", *form != "uncompressed"),
+            ("wpkh(K)", *form == "compressed"),
+            ("sh(wpkh(K))", *form == "compressed"),
+            ("pkh(K)", *form != "x-only"),
+            ("pk(K)", *form != "x-only"),
+        ] {
+            let d = Descriptor::<String>::from_str(templ).unwrap();
+            let mut map = BTreeMap::new();
+            map.insert("K".to_string(), k.to_string());
+            map.insert("L".to_string(), world.keys[(id + 2) % world.keys.len()].xonly_hex.clone());
+            rep.eval();
+            match guarded(std::panic::AssertUnwindSafe(|| d.translate_pk(&mut ToReal { keys: &map }).ok().map(|t| t.to_string()))) {
+                Err(m) => rep.violation(case, format!("C12:panic:translate_pk:{}", norm_loc(&last_panic_loc())), format!("translate_pk panicked ({}) on {} with a {} key", m, templ, form)),
+                Ok(Some(t)) if !ok => rep.violation(case, format!("C12:accepts:translate_pk:{}:key-kind", templ), format!("translate_pk of {} accepts a {} key: {}", templ, form, t)),
+                Ok(Some(t)) => {
+                    rep.count("translate_pk(key-only):accepted-legal");
+                    rep.nontrivial(&format!("translate|{}|{}", templ, t));
+                }
+                Ok(None) => rep.count(if ok { "translate_pk(key-only):refused-legal" } else { "translate_pk(key-only):refuses-illegal-key" }),
+            }
+        }
         let mut judge = |entry: &str, r: Result<Option<String>, String>| {
             rep.eval();
             match r {
@@ -761,6 +785,52 @@ fn key_constructors(rep: &mut Report, case: u64, world: &World, rng: &mut Rng) {
         judge("Descriptor::new_sh_wsh_sortedmulti", guarded(std::panic::AssertUnwindSafe(|| Descriptor::new_sh_wsh_sortedmulti(miniscript::Threshold::new(1, vec![kk.clone(), other.clone()]).unwrap()).ok().map(|d| d.to_string()))));
         judge("Descriptor::new_sh_sortedmulti", guarded(std::panic::AssertUnwindSafe(|| Descriptor::new_sh_sortedmulti(miniscript::Threshold::new(1, vec![kk.clone(), other.clone()]).unwrap()).ok().map(|d| d.to_string()))));
     }
+}
+
+/// Redeem scripts around the 520-byte P2SH limit, built with the unchecked `Miniscript::multi`
+/// / `sortedmulti` constructors (no `from_ast` at the root): the wrapper constructors and
+/// `validate` with the Legacy parameter sets are then the only gate for the script size.
+fn size_constructors(rep: &mut Report, case: u64, world: &World, rng: &mut Rng) {
+    let uncompressed = rng.chance(1, 3);
+    let n = if uncompressed { *rng.pick(&[6usize, 7, 8, 9, 12]) } else { *rng.pick(&[14usize, 15, 16, 17, 20]) };
+    let base = 1 + rng.below(200) as u8;
+    let keys: Vec<Dk> = (0..n)
+        .map(|j| {
+            let mut sk = [0x11u8; 32];
+            sk[30] = base;
+            sk[31] = j as u8 + 1;
+            let pk = bitcoin::secp256k1::PublicKey::from_secret_key(&world.secp, &bitcoin::secp256k1::SecretKey::from_slice(&sk).unwrap());
+            let text = if uncompressed { crate::world::hex(&pk.serialize_uncompressed()) } else { crate::world::hex(&pk.serialize()) };
+            Dk::from_str(&text).unwrap()
+        })
+        .collect();
+    let k = 1 + rng.below(n.min(3));
+    let keylen = if uncompressed { 66 } else { 34 };
+    let size = 1 + n * keylen + if n <= 16 { 1 } else { 2 } + 1;
+    let th = || miniscript::Threshold::<Dk, 20>::new(k, keys.clone()).unwrap();
+    let mut judge = |entry: &str, r: Result<bool, String>| {
+        rep.eval();
+        match r {
+            Err(m) => rep.violation(case, format!("C12:panic:{}:{}", entry, norm_loc(&last_panic_loc())), format!("{} panicked ({}) on multi({},{} keys)", entry, m, k, n)),
+            Ok(false) => rep.count(&format!("rejected:{}", entry)),
+            Ok(true) => {
+                rep.count(&format!("accepted:{}", entry));
+                rep.nontrivial(&format!("{}|{}|{}|{}", entry, k, n, uncompressed));
+                if size > 520 {
+                    rep.violation(
+                        case,
+                        format!("C12:accepts:{}:redeem-script-size", entry),
+                        format!("{} accepts multi({}, {} {} keys): the redeem script has {} bytes, the P2SH limit is 520", entry, k, n, if uncompressed { "uncompressed" } else { "compressed" }, size),
+                    );
+                }
+            }
+        }
+    };
+    judge("Descriptor::new_sh(Miniscript::multi)", guarded(std::panic::AssertUnwindSafe(|| Descriptor::new_sh(Miniscript::<Dk, Legacy>::multi(th())).is_ok())));
+    judge("Descriptor::new_sh(Miniscript::sortedmulti)", guarded(std::panic::AssertUnwindSafe(|| Descriptor::new_sh(Miniscript::<Dk, Legacy>::sortedmulti(th())).is_ok())));
+    judge("Descriptor::new_sh_sortedmulti(n keys)", guarded(std::panic::AssertUnwindSafe(|| Descriptor::new_sh_sortedmulti(th()).is_ok())));
+    judge("Miniscript::multi.validate(Legacy::CONSENSUS)", guarded(std::panic::AssertUnwindSafe(|| Miniscript::<Dk, Legacy>::multi(th()).validate(&Legacy::CONSENSUS).is_ok())));
+    judge("Miniscript::multi.validate(Legacy::SANE)", guarded(std::panic::AssertUnwindSafe(|| Miniscript::<Dk, Legacy>::multi(th()).validate(&Legacy::SANE).is_ok())));
 }
 
 pub fn run(cfg: &RunCfg, rep: &mut Report) {
@@ -830,6 +900,7 @@ pub fn run(cfg: &RunCfg, rep: &mut Report) {
         lattice_laws(rep, i, &mut rng);
         if i % 16 == 0 {
             key_constructors(rep, i, &world, &mut rng);
+            size_constructors(rep, i, &world, &mut rng);
         }
         if rep.samples.len() < rep.max_samples && i % 797 == 0 {
             rep.sample(format!("[{}] {} ({})", cx.name(), f.to_string_with(&AbstractNames), how));
